@@ -135,6 +135,32 @@ pub fn run(ctx: &mut Ctx, prop: &str) {
             ctx.check("!==:whole-data-twice", &r, a);
         }
     }
+    // size probes: long strings and arrays that differ (or not) at position k
+    for n in al::size_classes(ctx.tier_thorough) {
+        if !ctx.mine() {
+            continue;
+        }
+        let base: String = (0..n).map(|i| ['a', 'é', '水', '😀', '1'][i % 5]).collect();
+        let digits: String = (0..n.min(300)).map(|i| char::from(b'0' + (i % 10) as u8)).collect();
+        let mut variants: Vec<Value> = vec![json!(base), json!(digits), json!(format!(" {} ", digits)), json!(format!("{}.0", digits)), json!(format!("{}e0", digits))];
+        for k in [0usize, n / 2, n - 1] {
+            let v: String = base.chars().enumerate().map(|(i, c)| if i == k { 'b' } else { c }).collect();
+            variants.push(json!(v));
+            let arr: Vec<Value> = (0..n).map(|i| if i == k { json!(null) } else { json!(i % 10) }).collect();
+            variants.push(Value::Array(arr));
+        }
+        variants.push(Value::Array((0..n).map(|i| json!(i % 10)).collect()));
+        variants.push(json!((0..n).map(|i| (i % 10).to_string()).collect::<Vec<_>>().join(",")));
+        variants.push(digits.parse::<f64>().ok().and_then(|f| serde_json::Number::from_f64(f)).map(Value::Number).unwrap_or(json!(0)));
+        for a in &variants {
+            for b in &variants {
+                ctx.edge();
+                for k in ops {
+                    ctx.check(&format!("{}:size-probe", k), &op(k, vec![a.clone(), b.clone()]), &null);
+                }
+            }
+        }
+    }
     if prop == "C09" {
         let t = triple_corpus(ctx.tier_thorough);
         for a in &t {
